@@ -281,6 +281,9 @@ func Load(repo, verifDir string, extraOverlay map[string][]byte) (*Program, erro
 			if !b.Extern {
 				continue
 			}
+			if b.Kind == "extern" && b.Pkg != "" && p.stubNames[b.Pkg+"|"+b.Name] != "" {
+				continue // package-local: its stub lives in that package's vocabulary file
+			}
 			for _, c := range b.Of("import") {
 				imports[strings.TrimSpace(c.Text)] = true
 			}
